@@ -439,7 +439,11 @@ class ConcHarness:
             starved_ok = False
             for hc in topo.all_h2_conns():
                 for s_ in hc.blocked_uploads():
-                    if s_.recv_window > 0 and hc.conn_recv_window > 0:
+                    tk_ = (s_.token or b"").decode()
+                    if tk_ in self._uploads and len(s_.body) == len(self._uploads[tk_]):
+                        viol("C13", "end-stream-withheld", f"all {len(s_.body)} body bytes of stream {s_.id} were sent but the client does not end the stream (it waits for flow-control credit "
+                             f"that an empty END_STREAM frame does not need); stream window {s_.recv_window}, connection window {hc.conn_recv_window}")
+                    elif s_.recv_window > 0 and hc.conn_recv_window > 0:
                         base["reads_instead_of_sending"] = isinstance(info, list) and any(
                             "_wait_for_outgoing_flow" in b[1] and b[1].endswith("_read_incoming_data") for b in info)
                         viol("C13", "upload-stalled", f"upload on stream {s_.id} is stalled ({len(s_.body)} bytes sent) although the stream window is {s_.recv_window} and the connection window {hc.conn_recv_window}; "
@@ -503,6 +507,12 @@ class ConcHarness:
         after = post["after"]
         if after["requests"] != 0 or "Requests: 0 active, 0 queued" not in after["repr"]:
             viol("C05", "request-still-counted", f"pool after all callers returned: {after['repr']}")
+        timed_out = [n for n, r_ in results.items() if r_ and r_[0] == "exc" and isinstance(r_[1], httpcore.PoolTimeout)]
+        if timed_out and after["requests"] != 0:
+            viol("C16", "timed-out-request-not-forgotten", f"callers {timed_out} raised PoolTimeout, yet the pool still counts requests after all callers returned: {after['repr']}")
+        if timed_out and any("CONNECTING" in c_ for c_ in after["conns"]):
+            viol("C16", "timed-out-request-got-connection", f"callers {timed_out} raised PoolTimeout, yet a connection created for nobody is left in the pool: {after['conns']}",
+                 pool_timeout_race=base.get("pool_timeout_race"))
         if post["stuck"]:
             st = post["stuck"][0]
             viol("C05", "connection-stuck", f"pooled connection neither idle, closed nor expired after all callers returned: {post['stuck']}",
@@ -648,6 +658,7 @@ def scenarios(pid, tier):
             out.append(S(ct, ["req:a:pt=0"], max_connections=1, early=e))
             out.append(S(ct, ["hold:a", "req:a:pt=0"], max_connections=1, early=e))
             out.append(S(ct, ["hold:a", "req:b:pt=5", "req:a:pt=3"], max_connections=2, early=e))
+            out.append(S(ct, ["hold:a", "req:b:pt=5", "req:c:late"], max_connections=1, early=e, framing="connclose"))
     if pid == "C12":
         W = "req:a:w"
         base = ["h2pk"] if quick else ["h2pk", "h2alpn", "tunnel-h2"]
@@ -694,6 +705,9 @@ def scenarios(pid, tier):
                          h2script={"wu": [["stream", 70000]], "wu_budget": 2}, early=False))
             out.append(S(ct, [W, "up9:a", "up9:a"], max_connections=1, h2cfg=dict(manual, initial_window=4),
                          h2script={"wu": [["stream", 3], ["stream", 70000]], "wu_budget": 3}, early=False))
+            # body size exactly equal to the credit granted: END_STREAM must follow without further credit
+            out.append(S(ct, [W, "up4:a"], max_connections=1, h2cfg=dict(manual, initial_window=4), h2script={"wu": [], "wu_budget": 0}, early=False))
+            out.append(S(ct, [W, "up9:a"], max_connections=1, h2cfg=dict(manual, initial_window=4), h2script={"wu": [["stream", 5]], "wu_budget": 1}, early=False))
             # early response HEADERS while the upload is still blocked, credit arriving late
             out.append(S(ct, [W, "up9:a"], max_connections=1, h2cfg=dict(manual, initial_window=4),
                          h2script={"wu": [["stream", 70000]], "wu_budget": 2, "early_hdr": True}, early=False, horizon=300))
@@ -722,6 +736,7 @@ def scenarios(pid, tier):
             out.append(S(ct, ["req:a"], max_connections=2, h2script={"goaway": ids}, early=False))
             out.append(S(ct, ["req:a", "req:a"], max_connections=2, h2script={"goaway": ids}, early=False))
             out.append(S(ct, ["post:a", "req:a"], max_connections=2, h2script={"goaway": [1, 3], "rst": 1}, early=False))
+            out.append(S(ct, ["req:a:w", "post:a", "req:a"], max_connections=2, h2script={"goaway": [3, 5, 7]}, early=False))
             if not quick:
                 out.append(S(ct, ["req:a", "req:a", "req:a:late"], max_connections=2, h2script={"goaway": ids}, early=False))
                 out.append(S(ct, ["req:a", "req:a"], max_connections=2, h2script={"goaway": ids, "frag": 2}))
